@@ -648,7 +648,7 @@ def eval_index_expr(e, item_bb, hi_root, body, i, n, depth=8):
     """value of a usize expression built from the loop item (-> i), the range's upper end (-> n) and small constants;
     hi_root = (root local of the upper end, its canonical expression)"""
     if depth == 0: return None
-    if e[0] != 'const' and canon(body, e, ()) == hi_root[1]: return n
+    if e[0] != 'const' and canon(body, strip_casts(e), ()) == hi_root[1]: return n          # (the same count in another integer type)
     e = strip_casts(e)
     if e[0] == 'const':
         v = T.f64_const(e[1]); return int(v) if v is not None and v == int(v) else None
@@ -689,6 +689,42 @@ def C09_once(body, lo, bbs):
     return bool(bbs) and once_per_iteration(body, Loop(body, lo), bbs)[0]
 
 
+def merged_map_sites(ctx, body, tp):
+    """`Linear::new` written out: the terms are `Term { id, coefficient }` for every entry of a BTreeMap<u64, f64> M, and M was
+    filled with `*M.entry(id).or_default() += c` (entries that cancel to ~0 removed again, as Linear::new does).  The
+    accumulation sites count as the pushed (id, c) pairs."""
+    if len(tp) != 1: return None
+    fl = T.for_loops(body)
+    c = tp[0]
+    L2 = next((l for l in sorted(fl, key=lambda l: len(l[4])) if c.bb in l[4]), None)
+    tm = agg_def(body, root_of(body, c.args[1])[0], 'linear::Term')
+    if L2 is None or tm is None: return None
+    ops = dict(zip(tm[1]['rv'].get('fields', []), tm[1]['rv']['ops']))
+    for fname, pos in (('id', '0'), ('coefficient', '1')):
+        o = ops.get(fname)
+        r_, fs_, _c = root_of(body, o) if o is not None else (None, [], [])
+        if r_ != L2[0].dst['l'] or [f for a_, f in fs_][-1:] != [pos]: return None
+    M = root_of(body, L2[0].args[0], SEQ_TRANSPARENT)[0]
+    if M is None or not body.locals[M].startswith('std::collections::BTreeMap<u64, f64'): return None
+    sites = []
+    for e in body.calls:
+        if not e.args or root_of(body, e.args[0], REF_TRANSPARENT)[0] != M or '&mut' not in body.locals[e.args[0]['pl']['l']]: continue
+        if e.item == 'remove': continue                       # the `|sum| <= EPSILON` clean-up of Linear::new
+        if e.item != 'entry' or len(e.args) != 2: return None
+        od = [x for x in body.calls if x.item in ('or_default', 'or_insert') and x.args and root_of(body, x.args[0])[0] == e.dst['l']]
+        if len(od) != 1: return None
+        adds = []
+        for bi, st in body.stmts():
+            d_ = st['dst']; rv = st['rv']
+            if d_['p'] and d_['p'][0] == '*' and rv['k'] == 'bin' and rv['op'] == 'Add' and root_of(body, {'k': 'copy', 'pl': {'l': d_['l'], 'p': []}})[0] == od[0].dst['l']:
+                a_, b_ = rv['ops']
+                if a_['k'] in ('copy', 'move') and a_['pl']['l'] == d_['l']: adds.append(b_)
+                elif b_['k'] in ('copy', 'move') and b_['pl']['l'] == d_['l']: adds.append(a_)
+        if len(adds) != 1: return None
+        sites.append((e, e.args[1], adds[0]))
+    return sites or None
+
+
 def term_sites(ctx, body, new_call, dv_pushes, loop_header):
     """the (id, coefficient) pairs handed to Linear::new, as [(push call, id operand | 'READBACK', coefficient operand)]:
        * a vector of tuples, each pushed as `(id, c)`;
@@ -702,9 +738,9 @@ def term_sites(ctx, body, new_call, dv_pushes, loop_header):
         out = []
         for c in tp:
             ta = agg_def(body, root_of(body, c.args[1])[0], 'tuple')
-            if ta is None or len(ta[1]['rv']['ops']) != 2: return None
+            if ta is None or len(ta[1]['rv']['ops']) != 2: out = None; break
             out.append((c, ta[1]['rv']['ops'][0], ta[1]['rv']['ops'][1]))
-        return out
+        return out if out is not None else merged_map_sites(ctx, body, tp)
     r = root_of(body, new_call.args[0], SEQ_TRANSPARENT)[0]
     d = _whole_defs(body, r) if r is not None else []
     if len(d) != 1 or d[0][0] != 'call': return None
@@ -770,7 +806,7 @@ def check_coefficients(ctx, R, body, fn, floops, tsites):
     rng = bit_range(body, lo, floops)
     if rng is None:
         ctx.bad(R + '.coef/values', 'T-BRANCHFX', fn, 'terms are not pushed inside a loop over 0..n', body.site(c.bb)); return
-    item_bb = lo[0].bb; hi_op = rng[1]['rv']['ops'][1]; hi_c = canon(body, xexpr(body, hi_op), ())
+    item_bb = lo[0].bb; hi_op = rng[1]['rv']['ops'][1]; hi_c = canon(body, strip_casts(xexpr(body, hi_op)), ())
     hi_root = (root_of(body, hi_op)[0], hi_c)
     in_loop = lambda x: any(n_[0] == 'call' and len(n_) > 4 and n_[4] == item_bb for n_ in T.expr_walk(x))
     at_hi = lambda x: canon(body, strip_casts(x), ()) == hi_c
@@ -967,6 +1003,31 @@ def check(ctx):
                 is_int = (named and all(re.search(r'decision_variable::Kind::Integer\b', c) for c in named)) or \
                          (not named and [T.f64_const(c) for c in consts] == [float(INTEGER)])
                 if is_int: ktests += bool_tests(body, st['dst']['l'], rv['op'] == 'Eq', 'kind == Integer as i32')
+    if INTEGER is not None:
+        # `match Kind::try_from(v.kind) { Ok(Kind::Integer) => .., _ => error }` (also `from_i32` -> Option): the conversion has to
+        # succeed *and* give Integer; the Err / None arm and every other variant fail
+        for bi, st in body.stmts():
+            rv = st['rv']
+            if rv['k'] != 'discr': continue
+            P = [q for q in rv['pl']['p'] if q != '*']
+            if len(P) != 2 or not (isinstance(P[0], dict) and P[0].get('dc') in ('Ok', 'Some')) or not (isinstance(P[1], dict) and P[1].get('f') == '0'): continue
+            r_ = rv['pl']['l']; ty_ = body.locals[r_].lstrip('&')
+            if not re.match(r'^std::(result::Result|option::Option)<v1::decision_variable::Kind\b', ty_): continue
+            if not from_kind(ctx.S.backslice(body, [r_], depth=0)): continue
+            pos_d = 0 if ty_.startswith('std::result') else 1
+            for k5, b5, sw5 in body.uses.get(st['dst']['l'], ()):
+                if k5 != 'switch': continue
+                m5 = {v: t for v, t in sw5['ts']}
+                if INTEGER not in m5: continue
+                inner_fail = [(b5, t) for v, t in sw5['ts'] if v != INTEGER] + [(b5, sw5['else'])]
+                inner_fail = [(a_, t) for a_, t in inner_fail if body.blocks[t]['term']['k'] != 'unreachable']
+                for b0, st0 in discr_reads(body).get(r_, ()):
+                    for k3, b3, sw3 in body.uses.get(st0['dst']['l'], ()):
+                        if k3 != 'switch': continue
+                        m3 = {v: t for v, t in sw3['ts']}
+                        neg_t = m3.get(1 - pos_d, sw3['else'])
+                        ktests.append(Test(b3, [m5[INTEGER]], [neg_t] + [t for a_, t in inner_fail], 'match Kind::try_from(kind) { Ok(Integer) => .. }',
+                                           fail_edges=[(b3, neg_t)] + inner_fail, pass_edges=[(b5, m5[INTEGER])]))
     decide(R + '.guards/kind', ktests, 'no test `kind() == Integer` found', 'test `kind() == Integer` does not keep other kinds away from the encoding')
     # ---- guard 3: bound present
     btests = []; bsrc = 0
@@ -1178,6 +1239,11 @@ def check(ctx):
                     class _New: pass
                     nn = _New(); nn.name = 'linear::<impl v1::Linear>::new'; nn.args = [new.args[0], asg[0]['rv']['ops'][0]]; nn.bb = new.bb
                     new = nn
+            litX = construction_of(ctx, body, rX, 'v1::Linear') if new is None else None
+            if litX is not None and litX.operand('terms') is not None and litX.operand('constant') is not None:
+                # `Linear { terms, constant }` written out (the body of Linear::new at the call site)
+                class _New2: pass
+                new = _New2(); new.name = 'linear::<impl v1::Linear>::new'; new.args = [litX.operand('terms'), litX.operand('constant')]; new.bb = litX.bb
             if new is not None and re.search(r'impl v1::Linear>::new(::<.*>)?$', new.name) and len(new.args) == 2:
                 ts_ = term_sites(ctx, body, new, pushes, header)
                 tp = [x[0] for x in ts_] if ts_ else []
@@ -1211,6 +1277,6 @@ def check(ctx):
               ('' if hi_e is None else ': n = ' + T.expr_str(hi_e)), body.site(), idiom=how)
     # the loop starts at bit 0
     rng = [st for bi, st in body.stmts() if st['rv']['k'] == 'agg' and st['rv']['adt'].endswith('ops::Range') and st['dst']['l'] in si.locals]
-    ctx.check(len(rng) >= 1 and all(r['rv']['ops'][0].get('v') == '0_usize' for r in rng), R + '.loop/from-bit-0', 'T-CONST', fn, 'bit loop does not start at 0', body.site())
+    ctx.check(len(rng) >= 1 and all(re.fullmatch(r'0_[iu](8|16|32|64|128|size)', r['rv']['ops'][0].get('v') or '') for r in rng), R + '.loop/from-bit-0', 'T-CONST', fn, 'bit loop does not start at 0', body.site())
     ctx.floor('C12.guards', 9); ctx.floor('C12.vars', 9); ctx.floor('C12.cast', 1); ctx.floor('C12.single', 2); ctx.floor('C12.atomic', 2)
     ctx.floor('C12.loop', 5); ctx.floor('C12.round', 2); ctx.floor('C12.result', 1); ctx.floor('C12.bits', 1); ctx.floor('C12.coef', 2)
